@@ -105,8 +105,8 @@ def deadline_finite(ctx, L, rule="R-DEADLINE-FINITE"):
 def _reached(run):
     """the 'deadline reached' arm: literal (now < E.deadline) is False on the run"""
     for g, p in lits(run.guards()):
-        if (not p) and g[0] == "cmp" and g[1] == "<" and g[2] == NOW and g[3][0] == "sub" and g[3][2] == ("c", "deadline"):
-            return g[3][1]
+        if (not p) and g[0] == "cmp" and g[1] == "<" and g[2] in (NOW, TIME) and g[3][0] == "sub" and g[3][2] == ("c", "deadline"):
+            return g[3][1]      # (the pass's clock reading or a fresh one)
     return None
 
 
